@@ -4069,6 +4069,11 @@ class TLSConnection(TLSRecordLayer):
                 if session and not session.extendedMasterSecret and \
                         settings.requireExtendedMasterSecret:
                     session = None
+                # likewise for a session that used encrypt-then-MAC when
+                # the settings no longer allow it
+                if session and session.encryptThenMAC and \
+                        not settings.useEncryptThenMAC:
+                    session = None
             except KeyError:
                 pass
 
